@@ -23,7 +23,7 @@ ASSUME = [
 
 
 def gen_case(rng):
-    t = F.gen_data_tree(rng)
+    t = F.gen_data_tree(rng, max_depth=rng.choice([3, 3, 3, 3, 6]))
     paths = [p for p, _ in F.subtrees(t)]
     path = () if rng.random() < 0.6 else rng.choice(paths)
     return {
